@@ -2,8 +2,9 @@
    ExtrOcamlBasic only: bool, option, list, prod, unit, sumbool map to OCaml's;
    nat, N, Z, positive keep their Coq definitions.  No Extract Constant. *)
 From Coq Require Extraction ExtrOcamlBasic.
-From SV Require Import Base Regex Calendar Inputs.
-From SV.gen Require Import RegexGen PureGen.
+From SV Require Import Base Regex Calendar Inputs Tree IR Match.
+From SV.gen Require Import RegexGen PureGen ConstGen.
 Extraction Language OCaml.
 Extraction "sv.ml" pattern_table rmatch rsearch finditer
-  parse_value match_range validate_day validate_week iso_weeks.
+  parse_value match_range validate_day validate_week iso_weeks
+  api_match api_select api_filter api_closest bidi_of extended_language_filter.
